@@ -141,7 +141,12 @@ def check_state_tomography(env, n, tier):
 
         def experiment(circuits):
             received.extend(circuits)
-            return [noiseless_result(env, c, in_vis, n) for c in circuits]
+            out = []
+            for k_, c in enumerate(circuits):
+                # frequencies, not probabilities: every measurement setting comes with its own total (another number of shots per setting)
+                scale = env.const(F(k_ % 3 + 1, 2)) if env.mode == "exact" else float(500 * (k_ % 3 + 1))
+                out.append({st: p * scale for st, p in noiseless_result(env, c, in_vis, n).items()})
+            return out
         tomo = tomography.StateTomography(n, base, experiment)
         rho = tomo.process()
         # expected: outer product of the dual-rail state vector the base circuit prepares
@@ -419,6 +424,7 @@ def check_mle(env, n, tier):
     from lightworks import tomography
     from lightworks.tomography import choi_from_unitary
     name = "lightworks/tomography/process_tomography_mle.py:MLEProcessTomography.process#bnd"
+    first_label = None
     for label, base in mle_family(n, tier):
         V = real_np.array(gate_matrix_of(env, base, n), dtype=complex)
         tomo = tomography.MLEProcessTomography(n, base, experiment_factory(env, n))
@@ -433,6 +439,21 @@ def check_mle(env, n, tier):
                        model=dict(label=label, fidelity=float(fid)))
         env.check_true(f"{name}.mle-cptp[n={n};{label}]", bool(ev.min() > -1e-6 and real_np.allclose(ptr, real_np.identity(d), atol=1e-4)),
                        note="MLE estimate is positive and trace preserving", model=dict(label=label, min_eig=float(ev.min()), partial_trace_dev=float(abs(ptr - real_np.identity(d)).max())))
+        # the same object used again after the circuit was extended: the new estimate describes the new process, and the estimate handed out by the
+        # earlier call is still what it was (results are not overwritten by later calls)
+        if (n == 1 or first_label is None) and not base._external_heralds["input"]:
+            first_label = label
+            from lightworks import qubit as _q
+            kept = real_np.array(choi, dtype=complex).copy()
+            base.add(_q.S(), 0)
+            base.add(_q.H(), 0)
+            V2 = real_np.array(gate_matrix_of(env, base, n), dtype=complex)
+            choi2 = tomo.process()
+            fid2 = _fid(tomo, choi_from_unitary(V2))
+            env.check_true(f"{name}.mle-second-run[n={n};{label}]", bool(fid2 >= 0.99), note="a second process() after the circuit was extended estimates the extended process",
+                           model=dict(label=label, fidelity=float(fid2)))
+            env.check_true(f"{name}.mle-earlier-result-kept[n={n};{label}]", choi2 is not choi and bool(real_np.abs(real_np.array(choi) - kept).max() < 1e-12),
+                           note="the matrix returned by the first call is not changed by the second call", model=dict(label=label))
 
 
 # ------------------------------------------------------------------------------------------------ units
